@@ -127,8 +127,10 @@ type pRule struct {
 	acts     []pAct
 }
 
-var pSelVars = []string{"ARGS", "ARGS_GET", "ARGS_POST", "ARGS_NAMES", "REQUEST_HEADERS", "REQUEST_COOKIES", "TX", "RESPONSE_HEADERS", "FILES", "ENV", "GEO", "MATCHED_VARS", "RULE", "REQUEST_HEADERS_NAMES", "ARGS_GET_NAMES"}
-var pPlainVars = []string{"REQUEST_URI", "REQUEST_METHOD", "REQUEST_BODY", "QUERY_STRING", "REMOTE_ADDR", "REQUEST_LINE", "RESPONSE_BODY", "RESPONSE_STATUS", "REQUEST_FILENAME", "UNIQUE_ID", "DURATION"}
+// every selectable variable except XML and JSON, whose keys are XPath expressions with a scanner state of their own
+// (covered by the raw `parse var` cases against the model)
+var pSelVars = []string{"ARGS", "ARGS_GET", "ARGS_GET_NAMES", "ARGS_NAMES", "ARGS_PATH", "ARGS_POST", "ARGS_POST_NAMES", "ENV", "FILES", "FILES_NAMES", "FILES_SIZES", "FILES_TMPNAMES", "FILES_TMP_CONTENT", "GEO", "MATCHED_VARS", "MATCHED_VARS_NAMES", "MULTIPART_FILENAME", "MULTIPART_NAME", "MULTIPART_PART_HEADERS", "REQUEST_COOKIES", "REQUEST_COOKIES_NAMES", "REQUEST_HEADERS", "REQUEST_HEADERS_NAMES", "REQUEST_XML", "RESPONSE_ARGS", "RESPONSE_HEADERS", "RESPONSE_HEADERS_NAMES", "RESPONSE_XML", "RULE", "TX"}
+var pPlainVars = []string{"ARGS_COMBINED_SIZE", "AUTH_TYPE", "DURATION", "FILES_COMBINED_SIZE", "FULL_REQUEST", "FULL_REQUEST_LENGTH", "HIGHEST_SEVERITY", "INBOUND_DATA_ERROR", "IP", "MATCHED_VAR", "MATCHED_VAR_NAME", "MULTIPART_BOUNDARY_QUOTED", "MULTIPART_BOUNDARY_WHITESPACE", "MULTIPART_CRLF_LF_LINES", "MULTIPART_DATA_AFTER", "MULTIPART_DATA_BEFORE", "MULTIPART_FILE_LIMIT_EXCEEDED", "MULTIPART_HEADER_FOLDING", "MULTIPART_INVALID_HEADER_FOLDING", "MULTIPART_INVALID_PART", "MULTIPART_INVALID_QUOTING", "MULTIPART_LF_LINE", "MULTIPART_MISSING_SEMICOLON", "MULTIPART_STRICT_ERROR", "MULTIPART_UNMATCHED_BOUNDARY", "OUTBOUND_DATA_ERROR", "PATH_INFO", "QUERY_STRING", "REMOTE_ADDR", "REMOTE_HOST", "REMOTE_PORT", "REQBODY_ERROR", "REQBODY_ERROR_MSG", "REQBODY_PROCESSOR", "REQBODY_PROCESSOR_ERROR", "REQBODY_PROCESSOR_ERROR_MSG", "REQUEST_BASENAME", "REQUEST_BODY", "REQUEST_BODY_LENGTH", "REQUEST_FILENAME", "REQUEST_LINE", "REQUEST_METHOD", "REQUEST_PROTOCOL", "REQUEST_URI", "REQUEST_URI_RAW", "RESPONSE_BODY", "RESPONSE_CONTENT_LENGTH", "RESPONSE_CONTENT_TYPE", "RESPONSE_PROTOCOL", "RESPONSE_STATUS", "RES_BODY_ERROR", "RES_BODY_ERROR_MSG", "RES_BODY_PROCESSOR", "RES_BODY_PROCESSOR_ERROR", "RES_BODY_PROCESSOR_ERROR_MSG", "SERVER_ADDR", "SERVER_NAME", "SERVER_PORT", "SESSIONID", "STATUS_LINE", "TIME", "TIME_DAY", "TIME_EPOCH", "TIME_HOUR", "TIME_MIN", "TIME_MON", "TIME_SEC", "TIME_WDAY", "TIME_YEAR", "UNIQUE_ID", "URLENCODED_ERROR", "USERID"}
 var pSafeOps = []string{"streq", "contains", "beginsWith", "endsWith", "within", "pm", "strmatch", "unconditionalMatch", "noMatch", "eq", "ge", "gt", "le", "lt"}
 var pTfs = []string{"lowercase", "urlDecode", "urlDecodeUni", "trim", "compressWhitespace", "removeNulls", "htmlEntityDecode", "normalisePath", "normalizePath", "base64Decode", "length", "sha1", "hexEncode", "cmdLine", "jsDecode", "cssDecode", "utf8toUnicode", "removeWhitespace"}
 
